@@ -287,6 +287,12 @@ class Interp:
             except Raised as r:
                 if r.where is None:
                     r.where, r.node, r.fn, r.path = self.where(), node or self.cur_node(), self.cur_fn(), self.call_path()
+                    if 'never assigned' in r.message and isinstance(node, ast.Call):
+                        # name the operand that is None (the defect is the unset slot, not the statement that happens to consume it)
+                        for a_node, a_val in zip(node.args, args):
+                            if a_val is None and not isinstance(a_node, ast.Starred):
+                                r.none_arg = ast.unparse(a_node)
+                                break
                 raise
             except (UnknownTruth, Fork, AnalysisError, _Return):
                 raise
@@ -319,6 +325,7 @@ class Interp:
         r = Raised(type(e).__name__, str(e), node or self.cur_node(), self.cur_fn())
         r.where = self.where()
         r.path = self.call_path()
+        r.native = True          # thrown by a library / builtin call on the domain's values, not by a `raise` statement of the analysed program
         return r
 
     def call_local(self, lf, args, kwargs):
